@@ -338,7 +338,7 @@ Lemma step_p_test K node ts :
            else
              let starts_arg :=
                match r2 with
-               | KName s2 :: _ => negb (str_eqb s2 k_else || str_eqb s2 k_or || str_eqb s2 k_and)
+               | KName s2 :: _ => negb (str_eqb s2 k_else || str_eqb s2 k_or || str_eqb s2 k_and || str_eqb s2 k_if)
                | KStr _ :: _ | KInt _ :: _ | KFloat :: _ => true
                | KOp OLBracket :: _ | KOp OLBrace :: _ => true
                | _ => false
